@@ -102,14 +102,14 @@ type rarg struct {
 }
 
 type rop struct {
-	Op     string // declare | construct | decode | write | derefset
+	Op     string // declare | construct | decode | roundtrip | write | elem | takeptr | derefset
 	Name   string
 	Fields []rfield
 	Args   []rarg
 	Ko     []string // decode: zKeyOrder member (nil: absent)
-	Codec  string   // decode: json | msgpack
+	Codec  string   // decode, roundtrip: json | msgpack
 	Route  string
-	Slot   int
+	Slot   int // an instance variable; for the routes through a pointer variable (pvar, pvhset, pvderef) a pointer variable
 	Hop    string
 	KeyK   string // sym | str | int
 	KeyS   string
@@ -156,6 +156,10 @@ func (o rop) js() map[string]any {
 		ev["route"], ev["slot"], ev["hop"], ev["name"], ev["args"] = o.Route, o.Slot, o.Hop, o.Name, argsJS(o.Args)
 	case "elem":
 		ev["route"], ev["slot"], ev["field"], ev["idx"], ev["v"] = o.Route, o.Slot, o.Field, o.Idx, o.V.js()
+	case "takeptr":
+		ev["slot"] = o.Slot
+	case "roundtrip":
+		ev["codec"], ev["slot"] = o.Codec, o.Slot
 	}
 	return ev
 }
@@ -248,6 +252,12 @@ func opDerefset(route string, slot int, hop, name string, args ...rarg) rop {
 	return rop{Op: "derefset", Route: route, Slot: slot, Hop: hop, Name: name, Args: args}
 }
 
+// (def pJ (& iK)): the J-th pointer variable of the case
+func opTakeptr(slot int) rop { return rop{Op: "takeptr", Slot: slot} }
+
+// (def iN (unjson (json iK))): encode the instance and decode the document again
+func opRoundtrip(codec string, slot int) rop { return rop{Op: "roundtrip", Codec: codec, Slot: slot} }
+
 // ---------------------------------------------------------------- write routes
 
 // route: a way the language offers to store a value in a field.  X is the
@@ -303,7 +313,20 @@ func elemRoutes() []route {
 	}
 }
 
+// routes through a pointer taken earlier and kept in a variable P (the slot of the operation is the pointer's index)
+func pvarRoutes() []route {
+	return []route{
+		{"pvhset", "", "sym", "(hset (* P) K: V)"},
+		{"pvderef", "", "sym", "(hset (deref P) K: V)"},
+	}
+}
+
 func routeTemplate(name string) string {
+	for _, r := range pvarRoutes() {
+		if r.name == name {
+			return r.tmpl
+		}
+	}
 	for _, r := range elemRoutes() {
 		if r.name == name {
 			return r.tmpl
@@ -333,6 +356,7 @@ type recDriver struct {
 	env    *zygo.Zlisp
 	suffix string
 	nslots int
+	nptrs  int
 	last   map[int]string // slot -> last recorded observation (JSON), for the delta encoding
 	texts  bool           // record script text and error message with every event
 }
@@ -349,6 +373,7 @@ func recDriverFor(suffix string) *recDriver {
 	}
 	theRecDriver.suffix = suffix
 	theRecDriver.nslots = 0
+	theRecDriver.nptrs = 0
 	theRecDriver.last = map[int]string{}
 	return theRecDriver
 }
@@ -392,6 +417,7 @@ func (d *recDriver) absName(real string) string {
 	return real
 }
 func (d *recDriver) ivar(k int) string { return fmt.Sprintf("i%d%s", k, d.suffix) }
+func (d *recDriver) pvar(k int) string { return fmt.Sprintf("p%d%s", k, d.suffix) }
 
 func (d *recDriver) ttext(t rtype) string {
 	switch t.K {
@@ -529,12 +555,19 @@ func (d *recDriver) render(o rop, slot int) string {
 			return "(def " + d.ivar(slot) + " (unjson (raw `" + j + "`)))\n"
 		}
 		return "(def " + d.ivar(slot) + " (unmsgpack (zvmsgpack `" + j + "`)))\n"
+	case "roundtrip":
+		if o.Codec == "json" {
+			return "(def " + d.ivar(slot) + " (unjson (json " + d.ivar(o.Slot) + ")))\n"
+		}
+		return "(def " + d.ivar(slot) + " (unmsgpack (msgpack " + d.ivar(o.Slot) + ")))\n"
+	case "takeptr":
+		return "(def " + d.pvar(slot) + " (& " + d.ivar(o.Slot) + "))\n"
 	case "write":
 		t := routeTemplate(o.Route)
 		if t == "" {
 			fatal("records: unknown route %q", o.Route)
 		}
-		r := strings.NewReplacer("X", d.ivar(o.Slot), "H", o.Hop, "K", o.KeyS, "V", d.vtext(o.V))
+		r := strings.NewReplacer("X", d.ivar(o.Slot), "P", d.pvar(o.Slot), "H", o.Hop, "K", o.KeyS, "V", d.vtext(o.V))
 		return r.Replace(t) + "\n"
 	case "elem":
 		t := routeTemplate(o.Route)
@@ -550,6 +583,8 @@ func (d *recDriver) render(o rop, slot int) string {
 			return "(derefSet (& " + d.ivar(o.Slot) + ") " + payload + ")\n"
 		case "pfield":
 			return "(derefSet (:" + o.Hop + " " + d.ivar(o.Slot) + ") " + payload + ")\n"
+		case "pvar":
+			return "(derefSet " + d.pvar(o.Slot) + " " + payload + ")\n"
 		}
 	}
 	fatal("records: cannot render %+v", o)
@@ -693,9 +728,13 @@ func (d *recDriver) delta(obs []any) []any {
 func (d *recDriver) run(o rop) map[string]any {
 	ev := o.js()
 	slot := 0
-	if o.Op == "construct" || o.Op == "decode" {
+	switch o.Op {
+	case "construct", "decode", "roundtrip":
 		d.nslots++
 		slot = d.nslots
+	case "takeptr":
+		d.nptrs++
+		slot = d.nptrs
 	}
 	text := d.render(o, slot)
 	if d.texts {
@@ -885,6 +924,88 @@ func (g *recGen) constructs() {
 	}
 }
 
+// field names on both sides (in byte order, which is the order the decoder sorts the members of a
+// document by) of the two members the encoders add, "Atype" and "zKeyOrder"; "fa" is the control
+func namePalette() []string {
+	return []string{"Age", "A1", "Addr", "Zed", "zip", "zone", "été", "fa"}
+}
+
+// member names no struct declares; the digit-leading ones and "~t" can only be written in a document
+func undeclaredNames(inDocument bool) []string {
+	p := []string{"A0", "Zz", "zz", "ñ"}
+	if inDocument {
+		p = append(p, "0x", "7", "~t")
+	}
+	return p
+}
+
+func slotsOf(ops []rop) int {
+	n := 0
+	for _, o := range ops {
+		if o.Op == "construct" || o.Op == "decode" || o.Op == "roundtrip" {
+			n++
+		}
+	}
+	return n
+}
+
+// (b2) field names: every construction / decoding route x field name x field type: a valid instance, the
+// writes it must accept and refuse afterwards, instances with a wrong-typed and with an undeclared member,
+// and the round trips of the valid instance through both encodings (the result is an instance of the
+// struct again: same type, same fields, same enforcement on later writes)
+func (g *recGen) names() {
+	dr := directRoutes()
+	var symRoutes []route
+	for _, r := range dr {
+		if r.keyK == "sym" {
+			symRoutes = append(symRoutes, r)
+		}
+	}
+	n := 0
+	for _, nm := range namePalette() {
+		for _, t := range []rtype{tI64, tStr, tSI, tStruct("C")} {
+			right, wrong := vI64, vStr
+			switch t {
+			case tStr:
+				right, wrong = vStr, vI64
+			case tSI:
+				right, wrong = vSI, vSS
+			case tStruct("C"):
+				right, wrong = vAnon("C"), vAnon("B")
+			}
+			for _, cr := range ctorRoutes() {
+				n++
+				ops := []rop{
+					opDeclare("C", fld("fa", tI64)),
+					opDeclare("B", fld(nm, t), fld("fb", tI64)),
+				}
+				und := undeclaredNames(false)
+				probe := func(slot int) {
+					rt := symRoutes[(n+slot)%len(symRoutes)]
+					ops = append(ops, opWrite(rt, slot, nm, wrong), opWrite(rt, slot, und[(n+slot)%len(und)], right),
+						opWrite(rt, slot, "fb", vStr), opWrite(rt, slot, nm, right), opWrite(rt, slot, nm, vNil),
+						opWrite(dr[0], slot, nm, right))
+				}
+				ops = append(ops, cr.op("B", arg(nm, right), arg("fb", vI64))) // 1: valid
+				probe(1)
+				ops = append(ops, cr.op("B", arg(nm, wrong)), cr.op("B", arg("fb", vStr), arg(nm, right)),
+					cr.op("B", arg(nm, wrong), arg("fb", vI64)), cr.op("B", arg(nm, right)))
+				for _, u := range undeclaredNames(cr.kind == "decode") {
+					ops = append(ops, cr.op("B", arg(u, vI64)), cr.op("B", arg(nm, right), arg(u, vI64)), cr.op("B", arg("fb", vI64), arg(u, vNil)))
+				}
+				for _, codec := range []string{"json", "msgpack"} {
+					ops = append(ops, opRoundtrip(codec, 1))
+					back := slotsOf(ops)
+					probe(back)
+					ops = append(ops, opRoundtrip(codec, back))
+					probe(back + 1)
+				}
+				g.emit("n", ops)
+			}
+		}
+	}
+}
+
 func redeclDefs() [][]rfield {
 	return [][]rfield{
 		{},
@@ -920,9 +1041,13 @@ func (g *recGen) redecl() {
 					opCtor("ctor", "B"),
 					opDeclare("A", d1...),
 					opCtor("ctor", "A"),
+					opTakeptr(2), // p1: taken before the redeclaration
 					opDeclare("A", d2...),
 					opCtor("ctor", "A"),
+					opTakeptr(2), // p2: to the old instance, taken after the redeclaration
+					opTakeptr(3), // p3
 				}
+				pvr := pvarRoutes()[n%2]
 				vals := []rval{vI64, vStr, vSI, vES, vNil, vInst(1), vPtr(1), vPtr(2), vPtr(3)}
 				for _, tgt := range []int{2, 3} {
 					for _, k := range []string{"fa", "fb"} {
@@ -936,6 +1061,21 @@ func (g *recGen) redecl() {
 				for _, v := range jv {
 					ops = append(ops, cr.op("A", arg("fa", v)), cr.op("A", arg("fb", v)), cr.op("A", arg("fa", v), arg("fb", v)))
 				}
+				// whole-instance assignment through the pointer taken before the redeclaration: the old
+				// instance keeps its definition, whatever the payload; then through the later pointers
+				probe := func() {
+					ops = append(ops, opWrite(rt, 2, "fa", vI64), opWrite(pvr, 1, "fa", vStr), opWrite(pvr, 1, "fb", vI64), opWrite(rt, 2, "fb", vStr))
+				}
+				for _, v := range []rval{vI64, vStr, vNil} {
+					ops = append(ops, opDerefset("pvar", 1, "", "A", arg("fa", v)), opDerefset("pvar", 1, "", "A", arg("fb", v)))
+				}
+				ops = append(ops, opDerefset("pvar", 1, "", "A"))
+				probe()
+				ops = append(ops, opDerefset("pvar", 3, "", "A"), opDerefset("pvar", 1, "", "B"), opDerefset("pvar", 3, "", "A", arg("fa", vI64)),
+					opRoundtrip("json", 2), opRoundtrip("msgpack", 3), opRoundtrip("msgpack", 2))
+				ops = append(ops, opDerefset("pvar", 2, "", "A", arg("fa", vI64)), opDerefset("pvar", 2, "", "A", arg("fb", vStr)), opDerefset("pvar", 2, "", "A"))
+				probe()
+				ops = append(ops, opDerefset("pvar", 1, "", "A"))
 				// whole-instance assignment: old instance <- current-version value, then writes again
 				ops = append(ops, opDerefset("addr", 2, "", "A"))
 				for _, k := range []string{"fa", "fb"} {
@@ -1094,6 +1234,13 @@ func histAlphabet(rot int) []rop {
 		opDerefset("addr", 1, "", "B", arg("fa", vStr)),
 		opDerefset("pfield", 2, "fp", "B", arg("fa", vI64)),
 		opDerefset("addr", 3, "", "A", arg("fa", vI64)),
+		opTakeptr(3),
+		opDerefset("pvar", 1, "", "A"),
+		opDerefset("pvar", 1, "", "A", arg("fa", vStr)),
+		opDerefset("pvar", 2, "", "A", arg("fa", vI64)),
+		opWrite(pvarRoutes()[rot%2], 1, "fa", vStr),
+		opRoundtrip([]string{"json", "msgpack"}[rot%2], 1),
+		opRoundtrip([]string{"msgpack", "json"}[rot%2], 3),
 	}
 }
 
@@ -1103,14 +1250,15 @@ func histPrelude() []rop {
 		opDeclare("A", fld("fa", tI64), fld("fb", tStruct("B")), fld("fp", tPtr("B"))),
 		opCtor("ctor", "B"),
 		opCtor("ctor", "A", arg("fb", vInst(1)), arg("fp", vPtr(1))),
+		opTakeptr(2),
 	}
 }
 
 // (f) every history of length <= L over the alphabet (longer ones sampled)
 func (g *recGen) histories() {
-	full, sampledLen, num, den := 2, 3, 1, 32
+	full, sampledLen, num, den := 2, 3, 1, 48
 	if g.c.thorough() {
-		full, sampledLen, num, den = 3, 4, 1, 96
+		full, sampledLen, num, den = 3, 4, 1, 192
 	}
 	nA := len(histAlphabet(0))
 	var rec func(prefix []int)
@@ -1148,7 +1296,8 @@ func (g *recGen) random() {
 		}
 	}
 	names := []string{"A", "B", "C"}
-	fnames := []string{"fa", "fb", "fc", "fp"}
+	// declared field names on both sides of the members the encoders add ("Atype", "zKeyOrder")
+	fnames := []string{"Age", "fa", "fb", "fp", "zone"}
 	for i := 0; i < n; i++ {
 		if !g.c.mine(g.idx) {
 			g.idx++
@@ -1156,7 +1305,7 @@ func (g *recGen) random() {
 		}
 		r := newRng(g.c.seed, uint64(i)+1000)
 		declared := map[string]bool{}
-		nslots := 0
+		nslots, nptrs := 0, 0
 		slotType := map[int]string{}
 		randType := func(self string) rtype {
 			for {
@@ -1241,7 +1390,7 @@ func (g *recGen) random() {
 		randArgs := func(jsonOnly bool) []rarg {
 			var as []rarg
 			fs := append([]string(nil), fnames...)
-			fs = append(fs, "zz")
+			fs = append(fs, "zz", "A0")
 			for _, f := range fs {
 				if r.intn(4) == 0 {
 					as = append(as, arg(f, randVal(jsonOnly)))
@@ -1262,7 +1411,23 @@ func (g *recGen) random() {
 		hr := hopRoutes("", "")
 		crs := ctorRoutes()
 		for s := 0; s < 40; s++ {
-			switch x := r.intn(20); {
+			switch x := r.intn(25); {
+			case x == 20 && nslots > 0:
+				ops = append(ops, opTakeptr(1+r.intn(nslots)))
+				nptrs++
+			case x == 21 && nptrs > 0:
+				ops = append(ops, opDerefset("pvar", 1+r.intn(nptrs), "", declaredName(), randArgs(false)...))
+			case x == 22 && nptrs > 0:
+				v := randVal(false)
+				if v.K == "inst" {
+					v = vAnon(slotType[v.N])
+				}
+				ops = append(ops, opWrite(pick(r, pvarRoutes()), 1+r.intn(nptrs), pick(r, fnames), v))
+			case x >= 23 && nslots > 0 && nslots < 8:
+				src := 1 + r.intn(nslots)
+				ops = append(ops, opRoundtrip(pick(r, []string{"json", "msgpack"}), src))
+				nslots++
+				slotType[nslots] = slotType[src]
 			case x < 2:
 				ops = append(ops, randDecl(pick(r, names)))
 			case x < 5 && nslots < 8:
@@ -1288,7 +1453,7 @@ func (g *recGen) random() {
 				} else {
 					rt = pick(r, dr)
 				}
-				k := pick(r, []string{"fa", "fa", "fb", "fc", "fp", "zz"})
+				k := pick(r, []string{"fa", "fa", "fb", "Age", "fp", "zone", "zz", "A0"})
 				v := randVal(false)
 				tgt := 1 + r.intn(nslots)
 				// an instance is stored by value only in an instance of a "higher" struct
@@ -1323,6 +1488,7 @@ func init() {
 		g := &recGen{c: c, w: w}
 		g.matrix()
 		g.constructs()
+	g.names()
 		g.redecl()
 		g.crossver()
 		g.elements()
